@@ -22,7 +22,7 @@ INFO = {
     'require': {
         'quick': {'counters': {'actions_checked': 20000, 'sequences': 4000, 'files': 15, 'fresh_snapshots': 40, 'truncated_copies': 5},
                   'seen': {'action_kinds': 8, 'simulators': 6}, 'nontrivial': 2000},
-        'thorough': {'counters': {'actions_checked': 2000000, 'sequences': 500000, 'files': 20, 'fresh_snapshots': 100, 'truncated_copies': 20},
+        'thorough': {'counters': {'actions_checked': 1000000, 'sequences': 350000, 'files': 20, 'fresh_snapshots': 100, 'truncated_copies': 20},
                      'seen': {'action_kinds': 8, 'simulators': 6}, 'nontrivial': 250000},
     },
     'exhaustive': {'quick': True, 'thorough': True},
@@ -296,7 +296,7 @@ def run_file(ctx, path, label, spec, expect_times=None):
             depth = 3
         else:
             depth = 2
-        if len(fut.alpha) ** depth > 1500000:
+        while depth > 1 and len(fut.alpha) ** depth > 40000:
             depth -= 1
     ctx.see('enumeration_depth', '%s: N=%d rows=%d alphabet=%d depth=%d' % (label, fut.N, fut.rows, len(fut.alpha), depth))
     nbad0 = len(ctx.violations)
